@@ -55,6 +55,8 @@ def check_model(rep, drv, gen, rng, m, text, c, npts=3, fixed_points=None):
     v1 = pipeline.validate(drv, "rhs", 0, len(lay["sorted_states"]), [], rb)
     v2 = pipeline.validate(drv, "named", 0, len(lay["order"]), lay["order"], mb)
     structural_ok = v1.get("valid") and v2.get("valid")
+    pipeline.check_instance(rep, v1, text, "rhs")
+    pipeline.check_instance(rep, v2, text, "named")
     ns = impl.exec_module(code)
     if fixed_points is not None:
         pts, tried = [], 0
